@@ -711,6 +711,26 @@ class ExprMixin:
                 out.extend(self.call(fv, args, kwargs, s2, node))
         return out
 
+    def ev_ListComp(self, node, st):
+        """[s for s in lst if s] over a concatenation-tracked list of strings: a fresh list without the empty strings.  Only
+        its concatenation (equal to that of lst) and 0 <= len <= len(lst) are known; its items are arbitrary non-empty strings."""
+        if len(node.generators) == 1:
+            gen = node.generators[0]
+            src = self.ev1(gen.iter, st)
+            tgt = gen.target
+            if (isinstance(src, SRef) and src.cls.kind == 'list' and 'cat' in src.cls.fields and isinstance(tgt, ast.Name)
+                    and isinstance(node.elt, ast.Name) and node.elt.id == tgt.id and not gen.is_async
+                    and all(isinstance(c, ast.Name) and c.id == tgt.id for c in gen.ifs) and len(gen.ifs) <= 1):
+                s = st.copy()
+                r = self.new_ref(s, src.cls)
+                n = self.fresh(s, 'complen', z3.IntSort())
+                self.hstore(s, r, 'elems', self.fresh(s, 'compelems', z3.ArraySort(z3.IntSort(), z3.StringSort())))
+                self.hstore(s, r, 'len', n)
+                self.hstore(s, r, 'cat', self.hload(s, src, 'cat'))
+                s = s.assume(z3.And(n >= 0, n <= self.hload(s, src, 'len')))
+                return [(r, s)]
+        raise Unsupported('list comprehension at line %d' % node.lineno)
+
     def ev_GeneratorExp(self, node, st):
         # a generator expression over an opaque iterable is an opaque iterable (its items are arbitrary); anything else
         # is outside the subset
